@@ -1,4 +1,4 @@
-import FxVerif.Proofs.C11
+import FxVerif.Proofs.C11Fresh
 /-!
 # C11 — transferring delegation shares conserves shares, stake and reward entitlements
 
@@ -15,6 +15,17 @@ abbrev cfg := FxVerif.Gen.C11.cfg
 
 /-- the facts of the Go source that the property needs (see `Model.C11.good`) hold of the code as it is now -/
 theorem cfg_good : good cfg = true := by decide
+
+/-- **wrappers_act_for_caller.**  Each of the thin precompile wrappers (delegateV2, undelegateV2, redelegateV2, withdraw,
+approveShares) makes exactly one SDK call — the one the model executes for the corresponding operation — on behalf
+of the transaction's caller, with the validator(s) and the amount of the call's arguments, inside
+`ExecuteNativeAction` (so it is reverted with the EVM frame, property C09), and hands a failure back. -/
+theorem wrappers_act_for_caller :
+    cfg.wrappers.map (·.call) = ["stakingMsgServer.Delegate", "stakingMsgServer.Undelegate", "stakingMsgServer.BeginRedelegate",
+      "distrMsgServer.WithdrawDelegatorReward", "stakingKeeper.SetAllowance"] ∧
+    ∀ w, w ∈ cfg.wrappers → w.delegator = "caller" ∧ w.native = true ∧ w.errPropagated = true ∧
+      (w.validator = "args.Validator" ∨ w.validator = "args.ValidatorSrc" ∧ w.validatorDst = "args.ValidatorDst") := by
+  decide
 
 /-- **transfer_moves_exactly.**  A successful transfer of `X` (= shares × 10^18) between different accounts takes
 exactly `X` from the sender (whose delegation had at least `X`; it disappears iff it had exactly `X`), adds exactly `X`
@@ -369,6 +380,229 @@ theorem allowance_exact {s s' : State} {sp f t v x : Nat} (h : s.exec cfg (.tran
         · rw [ha]; simp
         · intro a b c' hne; rw [ha]; simp [hne]
 
+
+/-! ### every history: reference counts, withdrawability, no bookkeeping failure -/
+
+/-- the record of validator `w` after the history `ops` from genesis -/
+abbrev reachVS (nAcc h0 : Nat) (vals : List (Nat × Nat)) (ops : List Op) (w : Nat) : VS :=
+  ((init nAcc h0 vals).run cfg ops).vs w
+
+/-- **refcount_invariant.**  After *any* sequence of the ten operation kinds, for every validator and every period
+`p` the reference count of the historical-rewards record `p` is exactly the number of delegator starting infos that
+point at `p`, plus one if `p` is the period just before the validator's current period, plus the number of slash
+events recorded for `p` (the SDK's `ReferenceCountInvariant` is the sum of these equations over `p`).  Consequently
+no count exceeds 2 (the hand-written `incrementReferenceCount` never refuses), every record a starting info or a
+slash event refers to exists and lies below the current period, the record the current period refers to exists, and
+a delegator has a starting info exactly when it has a delegation.  This is where the hand-edited counts of
+`handlerTransferShares` (decrement on removal, increment for a new recipient, period offset 1) are needed. -/
+theorem refcount_invariant (nAcc h0 : Nat) (vals : List (Nat × Nat)) (hv : vals.length ≤ nAcc) (ops : List Op)
+    {w : Nat} (hw : w < vals.length) :
+    (∀ p, (reachVS nAcc h0 vals ops w).refs p =
+        infoCnt nAcc (reachVS nAcc h0 vals ops w) p + curRef (reachVS nAcc h0 vals ops w) p +
+        slashCnt (reachVS nAcc h0 vals ops w) p) ∧
+    (∀ p, (reachVS nAcc h0 vals ops w).refs p ≤ 2) ∧
+    (∀ d, ((reachVS nAcc h0 vals ops w).sinfo d).isSome = ((reachVS nAcc h0 vals ops w).del d).isSome) ∧
+    (∀ d si, (reachVS nAcc h0 vals ops w).sinfo d = some si →
+        d < nAcc ∧ si.period < (reachVS nAcc h0 vals ops w).period ∧ (reachVS nAcc h0 vals ops w).refs si.period ≠ 0) ∧
+    (∀ e, e ∈ (reachVS nAcc h0 vals ops w).slashes →
+        e.period < (reachVS nAcc h0 vals ops w).period ∧ (reachVS nAcc h0 vals ops w).refs e.period ≠ 0) ∧
+    (reachVS nAcc h0 vals ops w).refs ((reachVS nAcc h0 vals ops w).period - 1) ≠ 0 := by
+  have hi := reach_SInv cfg_good nAcc h0 vals hv ops hw
+  refine ⟨hi.ri.cnt, hi.ri.refs_le_two, hi.dom, ?_, ?_, hi.ri.refs_cur_pos⟩
+  · intro d si hs
+    have hd : d < nAcc := by
+      by_cases h : d < nAcc
+      · exact h
+      · have := hi.ri.out d (by omega)
+        rw [hs] at this; cases this
+    have := hi.ri.sper d si hs
+    exact ⟨hd, Nat.lt_of_succ_le this, hi.ri.refs_info_pos hd hs⟩
+  · intro e he
+    have := hi.ri.eper e he
+    exact ⟨Nat.lt_of_succ_le this, hi.ri.refs_slash_pos he⟩
+
+/-- **refcount_total** — the SDK's own `ReferenceCountInvariant`, as a theorem: after any history the reference counts
+of all historical records of a validator add up to 1 (the validator's current period) + the number of delegations
++ the number of slash events (no record exists at or above the current period, so the sum over the periods below it
+is the sum over all records). -/
+theorem refcount_total (nAcc h0 : Nat) (vals : List (Nat × Nat)) (hv : vals.length ≤ nAcc) (ops : List Op)
+    {w : Nat} (hw : w < vals.length) :
+    sumTo (reachVS nAcc h0 vals ops w).period (reachVS nAcc h0 vals ops w).refs =
+      delNum nAcc (reachVS nAcc h0 vals ops w) + 1 + (reachVS nAcc h0 vals ops w).slashes.length ∧
+    ∀ p, (reachVS nAcc h0 vals ops w).period ≤ p → (reachVS nAcc h0 vals ops w).refs p = 0 := by
+  have hi := reach_SInv cfg_good nAcc h0 vals hv ops hw
+  exact ⟨hi.ri.total hi.dom, fun p hp => hi.ri.refs_zero hp⟩
+
+/-- **still_withdrawable (partial).**  After any history every delegator of every validator can withdraw its rewards
+and undelegate all of its shares, at any height: both SDK calls succeed — the withdrawal leaves the delegation in
+place, the undelegation removes it — *unless* the SDK's own stake sanity check in `CalculateDelegationRewards`
+("calculated final stake … greater than current stake", tolerance 3·10⁻¹⁸) fires.  No other failure is possible: no
+missing or negative reference count, no count above 2, no missing starting info, no negative rewards, no period
+disorder, no token underflow.  `_partial`: that the rounding sanity check itself never fires is an arithmetic
+property of the SDK's 18-decimal truncations that is monitored on the real app (final withdraw + undelegate of every
+user in every history), not proved. -/
+theorem still_withdrawable_partial (nAcc h0 : Nat) (vals : List (Nat × Nat)) (hv : vals.length ≤ nAcc) (ops : List Op)
+    {w : Nat} (hw : w < vals.length) (h d sh : Nat) (hdel : (reachVS nAcc h0 vals ops w).del d = some sh) :
+    ((reachVS nAcc h0 vals ops w).withdrawMsg h d = .error .stakeSanity ∨
+      ∃ v' c, (reachVS nAcc h0 vals ops w).withdrawMsg h d = .ok (v', c) ∧ v'.del d = some sh) ∧
+    ((reachVS nAcc h0 vals ops w).unbond h d sh = .error .stakeSanity ∨
+      ∃ v' ret c, (reachVS nAcc h0 vals ops w).unbond h d sh = .ok (v', ret, c) ∧ v'.del d = none) := by
+  have hi := reach_SInv cfg_good nAcc h0 vals hv ops hw
+  have hd : d < nAcc := by
+    by_cases hlt : d < nAcc
+    · exact hlt
+    · have := hi.sum.2 d (by omega)
+      rw [hdel] at this; cases this
+  constructor
+  · rcases withdrawMsg_total hi.ri hi.dom (h := h) hd hdel with hE | ⟨v', c, hw', _, _, _, _, _, _, sf⟩
+    · exact Or.inl hE
+    · exact Or.inr ⟨v', c, hw', by rw [sf.1]; exact hdel⟩
+  · rcases unbond_full_total hi (h := h) hd hdel with hE | ⟨v', ret, c, hu, hn, _⟩
+    · exact Or.inl hE
+    · exact Or.inr ⟨v', ret, c, hu, hn⟩
+
+/-- **the exception in `still_withdrawable_partial` is real.**  `still_withdrawable` at full strength is false of the SDK's
+18-decimal arithmetic, without any share transfer: slash a validator of 10^20 tokens by 100 base units (fraction
+10⁻¹⁸), let someone delegate one base unit, slash by 100 base units again — the second effective fraction
+100 / (10^20 − 99) is truncated at 36 decimals to exactly 10⁻¹⁸ by `QuoRoundUp`, so the stake recomputed for the
+operator exceeds its current stake by ~99·10⁻¹⁸ > 3·10⁻¹⁸ and `CalculateDelegationRewards` refuses (panics in the
+real keeper; reproduced on the real app, see fixes/C11-sdk-stake-sanity.md).  The cause is dependency code (Cosmos SDK
+x/staking `Slash` + x/distribution), reachable only with slash fractions at the 10⁻¹⁸ precision limit. -/
+def errOf {α} : Except Err α → Option Err
+  | .ok _ => none
+  | .error e => some e
+
+theorem eq_error_of_errOf {α} {x : Except Err α} {e : Err} (h : errOf x = some e) : x = .error e := by
+  cases x with
+  | ok a => cases h
+  | error e' => cases h; rfl
+
+theorem stake_sanity_reachable :
+    ∃ (ops : List Op) (d sh : Nat), (reachVS 2 1 [(100000000000000000000, 0)] ops 0).del d = some sh ∧
+      (reachVS 2 1 [(100000000000000000000, 0)] ops 0).withdrawMsg 3 d = .error .stakeSanity :=
+  ⟨[.slash 0 1 1, .delegate 1 0 1, .slash 0 1 1], 0, 100000000000000000000 * ONE, by decide, eq_error_of_errOf (by decide)⟩
+
+/-- **transfer_reinitialises.**  After any history, a successful transfer between different accounts leaves each
+party with exactly the starting info the SDK's own `initializeDelegation` would write for its new shares at that
+moment: two validator periods are ended during the call, the validator's current rewards are zero afterwards and
+the cumulative reward ratio is the same at both period ends (nothing is pending for either party); the recipient
+starts at the last period ended with stake `TokensFromSharesTruncated(old shares + X)` at the current height; the
+sender — if it keeps shares — starts at the first period ended with stake `TokensFromSharesTruncated(rest)` at the
+current height, and has no starting info left otherwise.  This is the theorem that depends on the stake / period /
+height expressions of the hand-written starting infos (regenerated in `cfg.prog`). -/
+theorem transfer_reinitialises (nAcc h0 : Nat) (vals : List (Nat × Nat)) (hv : vals.length ≤ nAcc) (ops : List Op)
+    {w : Nat} (hw : w < vals.length) {v' : VS} {h f t X rf rt : Nat} {recv : Bool} (hf : f < nAcc) (htn : t < nAcc)
+    (hne : f ≠ t) (ht : VS.transfer cfg (reachVS nAcc h0 vals ops w) h f t X recv = .ok (v', rf, rt)) :
+    ∃ fsh, (reachVS nAcc h0 vals ops w).del f = some fsh ∧
+      v'.period = (reachVS nAcc h0 vals ops w).period + 2 ∧ v'.cur = 0 ∧
+      v'.ratio (reachVS nAcc h0 vals ops w).period = v'.ratio ((reachVS nAcc h0 vals ops w).period + 1) ∧
+      v'.sinfo t = some ⟨(reachVS nAcc h0 vals ops w).period + 1,
+        v'.tokensFromSharesTrunc (((reachVS nAcc h0 vals ops w).del t).getD 0 + X), h⟩ ∧
+      v'.sinfo f = (if fsh - X = 0 then none
+        else some ⟨(reachVS nAcc h0 vals ops w).period, v'.tokensFromSharesTrunc (fsh - X), h⟩) := by
+  obtain ⟨fsh, a1, a2, a3, a4, a5, a6, _⟩ :=
+    transfer_shape cfg_good (reach_SInv cfg_good nAcc h0 vals hv ops hw) hf htn hne ht
+  exact ⟨fsh, a1, a2, a3, a4, a5, a6⟩
+
+/-- **nothing_pending_after_transfer.**  After any history, right after a successful transfer between different
+accounts — at any later height, with no allocation or slash in between — each party that holds a delegation can
+withdraw, the withdrawal succeeds (here the SDK's stake sanity check provably cannot fire: the hand-written stake is
+the truncated token worth of the shares) and pays exactly nothing: together with `rewards_paid_up_to_now` the
+transfer paid each party precisely what had accrued up to that moment, no more and no less. -/
+theorem nothing_pending_after_transfer (nAcc h0 : Nat) (vals : List (Nat × Nat)) (hv : vals.length ≤ nAcc) (ops : List Op)
+    {w : Nat} (hw : w < vals.length) {v' : VS} {h f t X rf rt : Nat} {recv : Bool} (hf : f < nAcc) (htn : t < nAcc)
+    (hne : f ≠ t) (ht : VS.transfer cfg (reachVS nAcc h0 vals ops w) h f t X recv = .ok (v', rf, rt))
+    {d sh h' : Nat} (hd : d = f ∨ d = t) (hdel : v'.del d = some sh) (hh : h ≠ h') :
+    ∃ v'', v'.withdrawMsg h' d = .ok (v'', 0) :=
+  transfer_nothing_pending cfg_good (reach_SInv cfg_good nAcc h0 vals hv ops hw) hf htn hne ht hd hdel hh
+
+/-- **third_party_rewards_unchanged.**  After any history, a successful transfer between two different accounts does
+not change what the `delegationRewards` view (end the period on a branch, `CalculateDelegationRewards`, truncate)
+reports for any *other* delegator of the validator, at any height: third parties' reward entitlements are conserved
+exactly, including the effect of the two extra periods the transfer ends and of slash events. -/
+theorem third_party_rewards_unchanged (nAcc h0 : Nat) (vals : List (Nat × Nat)) (hv : vals.length ≤ nAcc) (ops : List Op)
+    {w : Nat} (hw : w < vals.length) {v' : VS} {h f t X rf rt : Nat} {recv : Bool} (hf : f < nAcc) (htn : t < nAcc)
+    (hne : f ≠ t) (ht : VS.transfer cfg (reachVS nAcc h0 vals ops w) h f t X recv = .ok (v', rf, rt))
+    {d : Nat} (hdf : d ≠ f) (hdt : d ≠ t) (hq : Nat) :
+    v'.pendingRewards hq d = (reachVS nAcc h0 vals ops w).pendingRewards hq d :=
+  transfer_third_party cfg_good (reach_SInv cfg_good nAcc h0 vals hv ops hw) hf htn hne ht hdf hdt hq
+
+/-- **transfer_frame.**  A transfer leaves every third party's reward entitlement alone: for every delegator other
+than the two parties the delegation and the starting info are unchanged, the cumulative reward ratio of every period
+that existed before the call is unchanged, the slash events are unchanged, and the validator's tokens and total
+shares are unchanged — these are all the inputs of `CalculateDelegationRewards` for a third party, and by
+`refcount_invariant` every record its starting info or a slash event refers to still exists afterwards. -/
+theorem transfer_frame (nAcc h0 : Nat) (vals : List (Nat × Nat)) (hv : vals.length ≤ nAcc) (ops : List Op)
+    {w : Nat} (hw : w < vals.length) {v' : VS} {h f t X rf rt : Nat} {recv : Bool} (hf : f < nAcc) (htn : t < nAcc)
+    (hne : f ≠ t) (ht : VS.transfer cfg (reachVS nAcc h0 vals ops w) h f t X recv = .ok (v', rf, rt)) :
+    (∀ d, d ≠ f → d ≠ t → v'.del d = (reachVS nAcc h0 vals ops w).del d ∧ v'.sinfo d = (reachVS nAcc h0 vals ops w).sinfo d) ∧
+    (∀ x, x < (reachVS nAcc h0 vals ops w).period → v'.ratio x = (reachVS nAcc h0 vals ops w).ratio x) ∧
+    v'.slashes = (reachVS nAcc h0 vals ops w).slashes ∧
+    v'.tokens = (reachVS nAcc h0 vals ops w).tokens ∧ v'.shares = (reachVS nAcc h0 vals ops w).shares := by
+  obtain ⟨fsh, _, _, _, _, _, _, b1, b2, b3, _⟩ :=
+    transfer_shape cfg_good (reach_SInv cfg_good nAcc h0 vals hv ops hw) hf htn hne ht
+  obtain ⟨_, _, _, _, _, _, c1, c2, c3⟩ := transfer_moves_exactly hne ht
+  exact ⟨fun d h1 h2 => ⟨c1 d h1 h2, b1 d h1 h2⟩, b2, b3, c2, c3⟩
+
+/-- the failures of an operation that are ordinary refusals of the request, as opposed to failures of the
+distribution / staking bookkeeping -/
+def refusal (e : Err) : Prop :=
+  e = .badArgs ∨ e = .noDelegation ∨ e = .recvRedel ∨ e = .insufficient ∨ e = .allowance ∨ e = .stakeSanity
+
+theorem transferOp_refusal {s : State} (hi : SInv s) {f t v x : Nat} {e : Err}
+    (h : s.transferOp cfg f t v x = .error e) : refusal e := by
+  unfold State.transferOp at h
+  split at h
+  · cases h; exact Or.inl rfl
+  · rename_i hok
+    have hok' : s.okAcc f = true ∧ s.okAcc t = true ∧ s.okVal v = true := by
+      revert hok
+      cases s.okAcc f <;> cases s.okAcc t <;> cases s.okVal v <;> decide
+    split at h
+    · cases h; exact Or.inl rfl
+    · rcases transfer_total cfg_good (hi v (lt_of_okVal hok'.2.2)) (h := s.height) (f := f) (t := t) (X := x * ONE)
+          (recv := s.hasRecvRedel f v) (lt_of_okAcc' hok'.1) (lt_of_okAcc' hok'.2.1) with ⟨e', he, hk⟩ | ⟨v2, a, b, hr, _⟩
+      · rw [he] at h
+        cases h
+        rcases hk with hk | hk | hk | hk
+        · exact Or.inr (Or.inl hk)
+        · exact Or.inr (Or.inr (Or.inl hk))
+        · exact Or.inr (Or.inr (Or.inr (Or.inl hk)))
+        · exact Or.inr (Or.inr (Or.inr (Or.inr (Or.inr hk))))
+      · rw [hr] at h; cases h
+
+/-- **transfer_never_breaks_bookkeeping.**  After any history a `transferShares` / `transferFromShares` call either
+succeeds or is refused for one of the documented reasons (bad arguments, no delegation, incoming redelegation,
+insufficient shares, insufficient allowance) or by the SDK's stake sanity check of the reward withdrawal it
+contains; it never fails — and never panics — in the hand-edited bookkeeping (reference count missing / negative /
+above 2, negative shares, period disorder, negative rewards, missing starting info). -/
+theorem transfer_never_breaks_bookkeeping (nAcc h0 : Nat) (vals : List (Nat × Nat)) (hv : vals.length ≤ nAcc)
+    (ops : List Op) (sp f t v x : Nat) (e : Err) :
+    (((init nAcc h0 vals).run cfg ops).exec cfg (.transfer f t v x) = .error e → refusal e) ∧
+    (((init nAcc h0 vals).run cfg ops).exec cfg (.transferFrom sp f t v x) = .error e → refusal e) := by
+  obtain ⟨hi, _, _⟩ := run_SInv cfg_good ops (init nAcc h0 vals) (init_SInv hv)
+  generalize (init nAcc h0 vals).run cfg ops = s at hi
+  constructor
+  · intro h
+    simp only [State.exec] at h
+    exact transferOp_refusal hi h
+  · intro h
+    have hg := cfg_good
+    obtain ⟨-, -, -, -, -, -, -, -, -, -, -, g12, g13, -⟩ := good_fields hg
+    simp only [State.exec] at h
+    split at h
+    · cases h; exact Or.inl rfl
+    · split at h
+      · cases h; exact Or.inl rfl
+      · split at h
+        · cases h; exact Or.inr (Or.inr (Or.inr (Or.inr (Or.inl rfl))))
+        · rename_i hal
+          split at h
+          · rename_i hlt
+            exfalso; apply hal
+            simp [g12, hlt]
+          · exact transferOp_refusal (s := { s with allow := _ }) (by exact hi) h
+
 /-! ### non-vacuity: the hypotheses are satisfiable on concrete, non-trivial histories -/
 
 /-- a history with a new recipient, an existing recipient, a full transfer, a slash and a self-transfer -/
@@ -395,6 +629,15 @@ example : (demo.vs 0).outstanding + (demo.vs 0).paid * ONE + (demo.vs 0).dust = 
 example : isOk (((init 4 1 [(1000, 0)]).run cfg [.delegate 1 0 500, .alloc 0 77, .block]).exec cfg (.transfer 1 2 0 500)) = true := by decide
 example : isOk (((init 4 1 [(1000, 0)]).run cfg [.delegate 1 0 500, .alloc 0 77, .block]).exec cfg (.transfer 1 1 0 500)) = true := by decide
 example : isOk (((init 4 1 [(1000, 0)]).run cfg [.delegate 1 0 500, .approve 1 3 0 70, .block]).exec cfg (.transferFrom 3 1 2 0 70)) = true := by
+  decide
+-- still_withdrawable: on the demo history both parties really can withdraw and fully undelegate three blocks later
+example : isOk ((demo.vs 0).withdrawMsg (demo.height + 3) 1) = true ∧ isOk ((demo.vs 0).unbond (demo.height + 3) 1 (250 * ONE)) = true ∧
+    isOk ((demo.vs 0).withdrawMsg (demo.height + 3) 2) = true ∧ isOk ((demo.vs 0).unbond (demo.height + 3) 2 (250 * ONE)) = true := by
+  decide
+-- refcount_invariant: the demo history has a record referenced twice (current period + a starting info), one
+-- referenced by the slash event, and three starting infos (operator, sender, recipient)
+example : (demo.vs 0).refs ((demo.vs 0).period - 1) = 2 ∧ slashCnt (demo.vs 0) 5 = 1 ∧ (demo.vs 0).refs 5 = 1 ∧
+    (List.range (demo.vs 0).period).map (fun p => infoCnt 4 (demo.vs 0) p) = [0, 1, 0, 0, 0, 0, 0, 0, 0, 1, 1] := by
   decide
 -- the refusal while the sender has an incoming redelegation is reachable
 example : isOk (((init 4 1 [(1000, 0), (1000, 0)]).run cfg [.delegate 2 0 500, .delegate 2 1 500, .redelegate 2 0 1 100]).exec cfg
